@@ -227,6 +227,7 @@ def run(tier, seed):
     # ---------------- nested decoding ----------------
     n_nested = 300 if tier == "quick" else 5000
     nested = []
+    nested_types = []
     fixed_types = []
     from typing import Tuple
     from qlasskit.types import Qint2, Qint4, Qfixed2_2, Qlist, Qmatrix
@@ -249,8 +250,40 @@ def run(tier, seed):
         if not ok_direct:
             direct_fail.append(dict(type=type_str(t), value=repr(v), measured=s, failures=[f"interpret_as_qtype gave {got!r}"]))
         nested.append((j, ty_to_coq(t), [c == "1" for c in s], n, gv, type_str(t), repr(v)))
+        nested_types.append(t)
         distinct.add(("nested", type_str(t), s))
     n_cases += len(nested)
+    # the same readings once more, in this process, after the same strings (and the ints they spell) have
+    # been formatted with a LARGER out_len (short outcomes are padded: a supported use): decoding is a
+    # function of its arguments, so every form of the reading must decode as it did the first time
+    from qlasskit.types import format_outcome
+    n_hist = 0
+    for j, tc, sb, n, gv, tstr, vrep in nested:
+        s = "".join("1" if b else "0" for b in sb)
+        try:
+            pads = [format_outcome(s, n + 3), format_outcome(int(s, 2) if s else 0, n + 5), format_outcome(s, n + 1)]
+            if [len(p) for p in pads] != [n + 3, n + 5, n + 1] or any(p[:n] != list(sb) for p in (pads[0], pads[2])) or any(any(p[n:]) for p in (pads[0], pads[2])):
+                direct_fail.append(dict(measured=s, failures=[f"format_outcome with a larger out_len gave {pads!r}"]))
+        except Exception as e:
+            direct_fail.append(dict(measured=s, failures=[f"format_outcome with a larger out_len raised {e!r}"]))
+        n_hist += 1
+    for (j, tc, sb, n, gv, tstr, vrep), t in zip(nested, nested_types):
+        s = "".join("1" if b else "0" for b in sb)
+        forms = [("str", s), ("list", [c == "1" for c in s])]
+        if s.startswith("1"):
+            forms.append(("int", int(s, 2)))
+        for fname, form in forms:
+            try:
+                got2 = interpret_as_qtype(form, t, n)
+                gv2 = val_to_coq(t, got2)
+            except Exception as e:
+                got2, gv2 = f"raised {e!r}", None
+            if gv2 != gv:
+                direct_fail.append(dict(type=tstr, value=vrep, measured=s, form=fname,
+                                        history="first decoding, then format_outcome(same string / its int, larger out_len), then this decoding",
+                                        failures=[f"second decoding gave {got2!r}"]))
+            n_hist += 1
+    n_cases += n_hist
     for ci in range(0, len(nested), 500):
         chunk = nested[ci:ci + 500]
         body = C.clist(["(%s, (%s, %s, %s, %s))" % (C.cN(j), t, C.cbools(s), C.cnat(n), C.copt(gv)) for j, t, s, n, gv, _, _ in chunk])
